@@ -256,3 +256,23 @@ MUTANTS += [
  dict(id='c06-unfix-repr', props=['C06'], file=U, old="round_up_str_num('%.9f' % frac,prec)", new="round_up_str_num(repr(frac),prec)"),
  dict(id='c06-hours-carry', props=['C06'], file=U, old="                if mins==60:\n                    mins = 0\n                    hours += 1", new="                if mins==60:\n                    mins = 0"),
 ]
+
+AG = 'athlib/uka/agegroups.py'
+MUTANTS += [
+ # ---- C13 -----------------------------------------------------------------------
+ dict(id='c13-prior-ge', props=['C13'], file=AG, old="    if x > match_date:", new="    if x >= match_date:"),
+ dict(id='c13-aug30', props=['C13'], file=AG, old="    august_cutoff = date(match_date.year, 8, 31)", new="    august_cutoff = date(match_date.year, 8, 30)"),
+ dict(id='c13-dec-le20', props=['C13'], file=AG, old="        if age_on_31_dec < 20:", new="        if age_on_31_dec <= 20:"),
+ dict(id='c13-masters-round', props=['C13'], file=AG, count=2, old='return "V%02d" % (int(age_on_match_day // 5) * 5)', new='return "V%02d" % (int(round(age_on_match_day / 5.0)) * 5)'),
+ dict(id='c13-xc-u13-none', props=['C13'], file=AG, old="    elif age_on_31_aug in [10, 11, 12]:", new="    elif age_on_31_aug in [11, 12]:"),
+ dict(id='c13-dayfirst', props=['C13'], file=AG, old="""    if isStr(birth_date):
+        birth_date = parse_date(birth_date)
+
+    cutoff_date""", new="""    if isStr(birth_date):
+        birth_date = parse_date(birth_date, dayfirst=True)
+
+    cutoff_date"""),
+ dict(id='c13-xc-underage-day', props=['C13'], file=AG, old="    if underage and age_on_match_day < 9:", new="    if underage and age_on_match_day <= 9:"),
+ dict(id='c13-tf-vets-34', props=['C13'], file=AG, old="            if age_on_match_day < 35:\n                return \"SEN\"\n            else:\n                # V35, V40, V45 etc\n                if vets:\n                    return \"V%02d\" % (int(age_on_match_day // 5) * 5)\n                else:\n                    return \"SEN\"\n\n\ndef rule507",
+      new="            if age_on_31_dec < 35:\n                return \"SEN\"\n            else:\n                # V35, V40, V45 etc\n                if vets:\n                    return \"V%02d\" % (int(age_on_match_day // 5) * 5)\n                else:\n                    return \"SEN\"\n\n\ndef rule507"),
+]
